@@ -31,6 +31,7 @@ func c06Gen(t *rapid.T, r *h.Rec) c06Case {
 	o := jsonOpts(av, onEx, onCl)
 	o.Unions, o.EnumStress, o.ManySubPkgs, o.Aliases = 1, true, true, true
 	o.UnionStress = false
+	o.ForeignUnions = true
 	o.EmbedNamed = true
 	c := c06Case{Spec: synth.GenTypes(t, o), Multi: rapid.Bool().Draw(t, "multi"), GoPath: rapid.Bool().Draw(t, "gopath")}
 	if id, open := av["dart_multi_source_union"]; open && c.Multi {
